@@ -146,6 +146,12 @@ def families(prop, tier):
         fams.append(dict(name='pools-dict', mode='dfs', depth=8 if q else 10, budget=600 if q else 40000,
                          cfg=dict(backend='dict', gate_store=False, nmsgs=3, nrcpt=1, backoff=[0, 2, None], store_pool=1, relay_pool=1,
                                   outcomes=['ok', 'T1'])))
+    if prop in ('C12', 'C01'):
+        # a backend that announces (wait()) behind a bounded store pool: the listener must not eat the pool
+        for sp in (1, 2):
+            fams.append(dict(name='poolwait-gdict', mode='dfs', depth=7 if q else 9, budget=400 if q else 20000,
+                             cfg=dict(backend='gdict', gate_store=True, announce=True, nmsgs=2, nrcpt=1, backoff=[0, None], store_pool=sp,
+                                      outcomes=['ok', 'T1'])))
     if prop in ('C01', 'C03'):
         # the same id dispatched twice while its first fetch is still in flight, on an index-log backend
         base = ['enq', 'write', 'relay:map:ott', 'increment_attempts', 'set_timestamp', 'set_recipients_delivered', 'announce', 'get', 'get',
